@@ -5,7 +5,7 @@ From Coq Require Import ZArith List Bool Reals PrimFloat.
 From FT.lib Require Import Num Arr ArrLemmas NumArr.
 From FT.gen Require Import Common Interp2d Interp3d Vinterp2d Vinterp3d Fteik2d Fteik3d Ray2d Ray3d.
 From FT.proofs Require Import NumFLaws SafetyTools Safety2d SafetyInterp Ray2dProofs.
-From FT.proofs Require Safety3d Ray3dProofs.
+From FT.proofs Require Safety3d Ray3dProofs RaySafety2d RaySafety3d.
 Import ListNotations.
 Open Scope Z_scope.
 
@@ -232,6 +232,137 @@ Theorem C12_ray_buffer_3d :
        (count = -1 \/ count = -2 \/ 1 <= count < max_step) /\ shape ray = [max_step; 3].
 Proof. exact @Ray3dProofs.ray3d_core_count_range. Qed.
 
+(* the step-shortening helper: masked selections have equal lengths, no index leaves its array *)
+Theorem C12_shrink_ok :
+  forall (T : Type) (H : Num T) (pcur delta lower upper : arr T),
+       shape pcur = shape delta -> FteikCommon.shrink_ok true false pcur delta lower upper = true.
+Proof. exact @RaySafety2d.shrink_ok_true_gen. Qed.
+
+(* the whole 2D tracing loop (cell lookup, gradient evaluation, vertex buffer) for every fuel, end point, source and step; grid-honouring mode needs no axis node below the first (axis_min), which every ascending axis satisfies *)
+Theorem C12_ray2d_core_ok :
+  forall (T : Type) (H : Num T),
+       RaySafety2d.RayLaws ->
+       forall (z x zgrad xgrad : arr T) (nz nx : Z),
+       axisn z nz ->
+       axisn x nx ->
+       2 <= nz ->
+       2 <= nx ->
+       shape zgrad = [nz; nx] ->
+       shape xgrad = [nz; nx] ->
+       forall (fuel : nat) (zend xend zsrc xsrc stepsize : T) (max_step : Z) (hg : bool),
+       1 <= max_step ->
+       (hg = true -> RaySafety2d.axis_min z nz /\ RaySafety2d.axis_min x nx) ->
+       u_ray2d_core_v_ok true false fuel z x zgrad xgrad zend xend zsrc xsrc stepsize max_step hg = true.
+Proof. exact @RaySafety2d.ray2d_core_ok_true. Qed.
+
+(* the public single-ray entry point, reversal of the buffer prefix included *)
+Theorem C12_ray2d_ok :
+  forall (T : Type) (H : Num T),
+       RaySafety2d.RayLaws ->
+       forall (z x zgrad xgrad : arr T) (nz nx : Z),
+       axisn z nz ->
+       axisn x nx ->
+       2 <= nz ->
+       2 <= nx ->
+       shape zgrad = [nz; nx] ->
+       shape xgrad = [nz; nx] ->
+       forall (fuel : nat) (p src : arr T) (stepsize : T) (max_step : Z) (hg : bool),
+       shape p = [2] ->
+       shape src = [2] ->
+       1 <= max_step ->
+       (hg = true -> RaySafety2d.axis_min z nz /\ RaySafety2d.axis_min x nx) ->
+       ray2d_1_ok true false fuel z x zgrad xgrad p src stepsize max_step hg = true.
+Proof. exact @RaySafety2d.ray2d_1_ok_true. Qed.
+
+(* 3D *)
+Theorem C12_ray3d_core_ok :
+  forall (T : Type) (H : Num T),
+       RaySafety2d.RayLaws ->
+       forall (z x y zgrad xgrad ygrad : arr T) (nz nx ny : Z),
+       axisn z nz ->
+       axisn x nx ->
+       axisn y ny ->
+       2 <= nz ->
+       2 <= nx ->
+       2 <= ny ->
+       shape zgrad = [nz; nx; ny] ->
+       shape xgrad = [nz; nx; ny] ->
+       shape ygrad = [nz; nx; ny] ->
+       forall (fuel : nat) (zend xend yend zsrc xsrc ysrc stepsize : T) (max_step : Z) (hg : bool),
+       1 <= max_step ->
+       (hg = true -> RaySafety2d.axis_min z nz /\ RaySafety2d.axis_min x nx /\ RaySafety2d.axis_min y ny) ->
+       u_ray3d_core_v_ok true false fuel z x y zgrad xgrad ygrad zend xend yend zsrc xsrc ysrc stepsize max_step hg =
+       true.
+Proof. exact @RaySafety3d.ray3d_core_ok_true. Qed.
+
+(* 3D entry point *)
+Theorem C12_ray3d_ok :
+  forall (T : Type) (H : Num T),
+       RaySafety2d.RayLaws ->
+       forall (z x y zgrad xgrad ygrad : arr T) (nz nx ny : Z),
+       axisn z nz ->
+       axisn x nx ->
+       axisn y ny ->
+       2 <= nz ->
+       2 <= nx ->
+       2 <= ny ->
+       shape zgrad = [nz; nx; ny] ->
+       shape xgrad = [nz; nx; ny] ->
+       shape ygrad = [nz; nx; ny] ->
+       forall (fuel : nat) (p src : arr T) (stepsize : T) (max_step : Z) (hg : bool),
+       shape p = [3] ->
+       shape src = [3] ->
+       1 <= max_step ->
+       (hg = true -> RaySafety2d.axis_min z nz /\ RaySafety2d.axis_min x nx /\ RaySafety2d.axis_min y ny) ->
+       ray3d_1_ok true false fuel z x y zgrad xgrad ygrad p src stepsize max_step hg = true.
+Proof. exact @RaySafety3d.ray3d_1_ok_true. Qed.
+
+(* binary64 instance (NaN included) *)
+Theorem C12_ray_ok_binary64_2d :
+  forall (z x zgrad xgrad : arr float) (nz nx : Z) (fuel : nat) (zend xend zsrc xsrc stepsize : float)
+         (max_step : Z) (hg : bool),
+       axisn z nz ->
+       axisn x nx ->
+       2 <= nz ->
+       2 <= nx ->
+       shape zgrad = [nz; nx] ->
+       shape xgrad = [nz; nx] ->
+       1 <= max_step ->
+       (hg = true -> RaySafety2d.axis_min z nz /\ RaySafety2d.axis_min x nx) ->
+       u_ray2d_core_v_ok true false fuel z x zgrad xgrad zend xend zsrc xsrc stepsize max_step hg = true.
+Proof. exact @RaySafety2d.ray2d_core_ok_true_F. Qed.
+
+(* 3D *)
+Theorem C12_ray_ok_binary64_3d :
+  forall (z x y zgrad xgrad ygrad : arr float) (nz nx ny : Z) (fuel : nat)
+         (zend xend yend zsrc xsrc ysrc stepsize : float) (max_step : Z) (hg : bool),
+       axisn z nz ->
+       axisn x nx ->
+       axisn y ny ->
+       2 <= nz ->
+       2 <= nx ->
+       2 <= ny ->
+       shape zgrad = [nz; nx; ny] ->
+       shape xgrad = [nz; nx; ny] ->
+       shape ygrad = [nz; nx; ny] ->
+       1 <= max_step ->
+       (hg = true -> RaySafety2d.axis_min z nz /\ RaySafety2d.axis_min x nx /\ RaySafety2d.axis_min y ny) ->
+       u_ray3d_core_v_ok true false fuel z x y zgrad xgrad ygrad zend xend yend zsrc xsrc ysrc stepsize max_step hg =
+       true.
+Proof. exact @RaySafety3d.ray3d_core_ok_true_F. Qed.
+
+(* axis_min is needed in grid-honouring mode: with z = [0; -2^-30; 1] the magnetism snaps below z[0] and z[-1] is read (witness by vm_compute; such an axis is never produced by the API, whose axes ascend) *)
+Theorem C12_ray_axis_min_needed :
+  u_ray2d_core_v_ok true false 5 RaySafety2d.ex_bad_ax RaySafety2d.ex_ax RaySafety2d.ex_grad32
+         RaySafety2d.ex_zero32 0.5%float 0.5%float 0.5%float 0%float 0.375%float 10 true = false.
+Proof. exact @RaySafety2d.ray2d_core_ok_axis_min_refuted. Qed.
+
+(* max_step >= 1 is needed: a zero-row buffer is written at row 0 *)
+Theorem C12_ray_max_step_0_refuted :
+  u_ray2d_core_v_ok true false 5 RaySafety2d.ex_ax RaySafety2d.ex_ax RaySafety2d.ex_grad RaySafety2d.ex_grad
+         0.5%float 0.5%float 0%float 0%float 0.25%float 0 false = false.
+Proof. exact @RaySafety2d.ray2d_core_ok_max_step_0_refuted. Qed.
+
 Print Assumptions C12_sweep_ok_2d.
 Print Assumptions C12_sweep2d_ok.
 Print Assumptions C12_sweep_ok_3d.
@@ -250,3 +381,12 @@ Print Assumptions C12_le_lt_law_binary64.
 Print Assumptions C12_single_node_axis_refuted.
 Print Assumptions C12_ray_buffer_2d.
 Print Assumptions C12_ray_buffer_3d.
+Print Assumptions C12_shrink_ok.
+Print Assumptions C12_ray2d_core_ok.
+Print Assumptions C12_ray2d_ok.
+Print Assumptions C12_ray3d_core_ok.
+Print Assumptions C12_ray3d_ok.
+Print Assumptions C12_ray_ok_binary64_2d.
+Print Assumptions C12_ray_ok_binary64_3d.
+Print Assumptions C12_ray_axis_min_needed.
+Print Assumptions C12_ray_max_step_0_refuted.
